@@ -10,7 +10,7 @@ EXPLANATION = (
     "derived from wait: #wake tokens = #sleepers grabbed = #woken signals awaited, one sleeper subtracted per timed-out "
     "waiter, wait semaphore re-zeroed (R-COND-TOKENS); every access to the Event flag under its condition, set = flag:=1 "
     "then notify_all, wait re-reads the flag after waiting (R-EVENT-LOCKED); get/setstate agreement for SemLock and "
-    "Condition (R-STATE-SYM). NOT decided -- and not decidable in this family: that the three-semaphore protocol is "
+    "Condition (R-STATE-SYM); wait releases exactly the recursion level, as an evaluated term (R-COND-PAIR). NOT decided -- and not decidable in this family: that the three-semaphore protocol is "
     "correct under every interleaving (a model-checking question)."
 )
 
